@@ -69,6 +69,22 @@ def run(P, tier="quick"):
             R.violated(Finding("R24", PROPS, file, fname, "count-test", "no test comparing the equation count with the number of "
                                "unknowns found", f.line))
             continue
+        # (d) SAME-SPACE: the two sides count in the same space - all systems together (vn_equations against
+        # vn_systems * unknowns, e.g. the x_length argument) or one system (vns_equation_count against unknowns)
+        for t in tests:
+            a, b = depends(P, f, t.kids[0]), depends(P, f, t.kids[1])
+            small, big = (a, b) if t.op in ("<", "<=") else (b, a)
+            total_eq = "vn_equations" in small
+            total_unk = "vn_systems" in big
+            key = "R24|%s|%s|count-space" % (file, fname)
+            if total_eq == total_unk:
+                R.ok(key, PROPS)
+            else:
+                R.violated(Finding("R24", PROPS, file, fname, "count-space",
+                                   "'%s' compares %s with %s: with one linear system per column (UE14/E12) a calibration that has "
+                                   "enough equations for one system but not for all of them passes the test" %
+                                   (t.text(), "the equations of all systems" if total_eq else "the equations of one system",
+                                    "the unknowns of all systems" if total_unk else "the unknowns of one system"), t.line))
         # the true edge of the test must fail with MATH
         tr = FailTracker(P, f, S)
         tr.site_marks = {t.id: "cnt%d" % t.id for t in tests}
@@ -106,6 +122,35 @@ def run(P, tier="quick"):
                     R.violated(Finding("R24", set(PROPS) | {"C03"}, file, fname, anchor,
                                        "variable-length array %s[%s] is declared before the equations < unknowns test: with no "
                                        "equations in a system its length is 0 (undefined behaviour)" % (v.get("name"), "][".join(dt)), v.line))
+    # (e) a refusal that depends on the number of equations is a mathematical failure (EDOM), not a usage error
+    nref = 0
+    for fname, file in (("_vnacal_new_solve_simple", "vnacal_new_solve_simple.c"), ("_vnacal_new_solve_auto", "vnacal_new_solve_auto.c"),
+                        ("_vnacal_new_solve_internal", "vnacal_new_solve.c")):
+        f = P.need_func(fname, file)
+        for n in f.walk():
+            if n.k != "IfStmt":
+                continue
+            kids = [x for x in n.kids if x is not None]
+            if any(m.k == "CallExpr" for m in kids[0].walk()):
+                continue        # allocation / callee results sized by the equation count are not count tests
+            if not any(x in depends(P, f, kids[0]) for x in EQ_FIELDS):
+                continue
+            for c in kids[1].calls("_vnacal_error"):
+                cat = c.args()[1].strip() if len(c.args()) > 1 else None
+                if cat is None:
+                    continue
+                nref += 1
+                name = cat.refname or cat.text()
+                key = "R24|%s|%s|count-refusal-class#%d" % (file, fname, nref)
+                if name == "VNAERR_MATH":
+                    R.ok(key, set(PROPS) | {"C11"})
+                else:
+                    R.violated(Finding("R24", set(PROPS) | {"C11"}, file, fname, "count-refusal-class",
+                                       "a solve refused because of the number of equations (`%s`) is reported as %s: too few standards "
+                                       "is documented as a VNAERR_MATH failure (errno EDOM) that can be retried after adding standards" %
+                                       (kids[0].text()[:60], name), c.line))
+    if nref < 2:
+        raise AnalysisBroken("R24: %d equation-count refusals found (2 confirmed by hand)" % nref)
     # (c) commit only on success
     f = P.need_func("_vnacal_new_solve_internal", "vnacal_new_solve.c")
     stores = []
